@@ -19,6 +19,10 @@ contract(f'{CF}::Atmo.calculate_air_density', props=(),
          params=dict(t=Real(lo=-90, hi=60), p=Real(lo=150, hi=1100), humidity=Real(lo=0, hi=1)),
          # no precondition is imposed on callers and nothing is promised about the value (callers only store it);
          # its own arithmetic safety on the stated box is the interval obligation 'cipm-denominators'
+         # positivity on the box is what the interval obligation 'cipm-denominators' (props/C08.py) establishes for this
+         # very function: the clause is used here as its contract, discharged there
+         ensures=[('positive-on-the-stated-box',
+                   'implies(-90 <= t <= 60 and 150 <= p <= 1100 and 0 <= humidity <= 1, result > 0)', 'route')],
          modifies=[], modular=True, result_shape=Real())
 
 contract(f'{CF}::Atmo.humidity', which='setter', props=('C08',),
@@ -43,8 +47,9 @@ contract(f'{CF}::Atmo.get_density_factor_and_mach_for_altitude', props=('C08', '
               f'(self._t0 + cDegreesCtoK), cPressureExponent))) / (self._p0 * {TK}))'),
              ('zero-density-station-gives-zero-density-everywhere',
               'implies(self._density_ratio == 0, result[0] == 0)'),
+             ('density-ratio-is-never-negative-and-speed-of-sound-is-positive', 'result[0] >= 0 and result[1] > 0'),
          ],
-         modifies=[])
+         modifies=[], modular=True, functional='atmo_at', functional_outputs=2)
 
 contract(f'{CF}::Atmo.temperature_at_altitude', props=('C08',),
          params=dict(self=ATMO, altitude=Real()),
@@ -85,4 +90,5 @@ contract('verif:contracts/specfn.py::query_set_humidity_query', props=('C08', 'C
          params=dict(atmo=atmo_shape(_t0=Real(lo=-90, hi=60), _p0=Real(lo=150, hi=1100), _density_ratio=Real(lo=0)),
                      h1=Real(lo=-2000, hi=40000), hum=Real(lo=0, hi=100), h2=Real(lo=-2000, hi=40000)),
          ensures=[(cl.label, cl.src.replace('self.', 'atmo.').replace('altitude', 'h2')) for cl in _g.ensures],
-         modifies=['atmo._humidity', 'atmo._density_ratio', 'atmo._density_k'])
+         modifies=['atmo._humidity', 'atmo._density_ratio', 'atmo._density_k'],
+         inline=[f'{CF}::Atmo.get_density_factor_and_mach_for_altitude'])
